@@ -91,6 +91,9 @@ def run(ctx, chk):
                              "whose own precondition is exactly that type, on the same item, buffer and size")
     chk.rule("C03.width", "in the integer / float serializers each width arm calls the getter whose precondition is that width "
                           "and the encoder of that width and major type, passing the getter's value unconverted")
+    chk.rule("C03.guard", "an encoder refuses (0) only a buffer that is too small for the head it has to write, writes exactly the bytes it "
+                          "reports and nothing on refusal: with a buffer of exactly the serialized size every tree is emitted (shared with "
+                          "C07.guard)")
     chk.rule("C03.offset", "encoders emit the RFC initial byte (major-type offset | additional information)")
     chk.rule("C03.shortest", "lengths, counts and tag numbers use the shortest head; integers and floats their stored width")
     chk.rule("C03.bytes", "arguments are big-endian")
@@ -153,6 +156,8 @@ def run(ctx, chk):
             if rule in ("offset", "shortest", "cover", "bytes", "nan"):
                 r = {"cover": "shortest"}.get(rule, rule)
                 chk.ob("C03." + r, inst, ok, w, fn=n, detail=detail)
+            elif rule == "guard":
+                chk.ob("C03.guard", inst, ok, w, fn=n, detail=detail)
 
     # ---- framing and order
     cache2 = {n: P.Executor(prog, eff, loop_bound=2, inline=O.static_callees(prog, eff, n)).run(n) for n in
